@@ -27,13 +27,15 @@ Section BaseSpec.
   Variable charset : list N.
   Variables hmin hmax sep : N.
   Variable cklen : nat.
+  Variable ascii_only : bool.
+  Variable min_data : nat.
   Variable verify : list N -> list N -> res bool.
   Hypothesis charset_nodup : NoDup charset.
   Hypothesis sep_out : ~ In sep charset.
 
   Notation nsym := (N.of_nat (length charset)).
   Definition sym (d : N) : N := nth (N.to_nat d) charset 0.
-  Notation decode_base := (decode_base charset hmin hmax sep cklen verify).
+  Notation decode_base := (decode_base charset hmin hmax sep cklen ascii_only min_data verify).
 
   Definition hrp_ok (hrp : list N) : Prop := hrp <> [] /\ Forall (fun x => hmin <= x <= hmax) hrp.
   Definition syms_ok (l : list N) : Prop := Forall (fun d => d < nsym) l.
@@ -106,20 +108,34 @@ Section BaseSpec.
   Lemma strip_checksum_eq l : strip_checksum cklen l = drop_last cklen l.
   Proof. unfold strip_checksum. destruct cklen; [lia|reflexivity]. Qed.
 
-  (* _DecodeBech32 accepts exactly: no mixed case; the lower-cased string is HRP, separator, symbols;
-     HRP non-empty and in range; at least cklen + 1 symbols of the charset; checksum verifies *)
+  Definition ascii_rule (s : list N) : Prop := ascii_only = true -> Forall (fun c => c < 128) s.
+
+  Lemma ascii_guard_false s : ascii_only && negb (forallb (fun c => c <? 128) s) = false <-> ascii_rule s.
+  Proof.
+    unfold ascii_rule. destruct ascii_only; cbn [andb].
+    - rewrite negb_false_iff, forallb_Forall. split.
+      + intros H _. eapply Forall_impl; [|exact H]. intros a Ha. apply N.ltb_lt. exact Ha.
+      + intros H. specialize (H eq_refl). eapply Forall_impl; [|exact H]. intros a Ha. apply N.ltb_lt. exact Ha.
+    - split; [discriminate|reflexivity].
+  Qed.
+
+  (* _DecodeBech32 accepts exactly: (ASCII only, where the code has that guard;) no mixed case; the lower-cased
+     string is HRP, separator, symbols; HRP non-empty and in range; at least cklen + min_data symbols of the
+     charset; checksum verifies *)
   Theorem decode_base_ok_iff s hrp data :
     decode_base s = Ok (hrp, data) <->
-    is_string_mixed s = false /\ hrp_ok hrp /\
-    exists ints, py_lower s = hrp ++ sep :: map sym ints /\ syms_ok ints /\ (cklen + 1 <= length ints)%nat /\
+    ascii_rule s /\ is_string_mixed s = false /\ hrp_ok hrp /\
+    exists ints, py_lower s = hrp ++ sep :: map sym ints /\ syms_ok ints /\ (cklen + min_data <= length ints)%nat /\
                  verify hrp ints = Ok true /\ data = drop_last cklen ints.
   Proof.
     unfold Bech32.decode_base. split.
-    - destruct (is_string_mixed s); [discriminate|].
+    - destruct (ascii_only && negb (forallb (fun c => c <? 128) s)) eqn:CA; [discriminate|].
+      apply ascii_guard_false in CA.
+      destruct (is_string_mixed s); [discriminate|].
       destruct (rfind sep (py_lower s)) as [pos|] eqn:R; [|discriminate].
       apply rfind_some in R. destruct R as (a & b & El & Hb & <-). rewrite El, firstn_app_exact, skipn_app_exact.
       destruct ((length a =? 0)%nat || existsb (fun x => (x <? hmin) || (hmax <? x)) a) eqn:C1; [discriminate|].
-      destruct ((length b <? cklen + 1)%nat || negb (forallb (fun x => memb x charset) b)) eqn:C2; [discriminate|].
+      destruct ((length b <? cklen + min_data)%nat || negb (forallb (fun x => memb x charset) b)) eqn:C2; [discriminate|].
       destruct (verify a (map (charset_find charset) b)) as [[|]|e] eqn:V; cbn [bind Ok negb]; try discriminate.
       intros X. injection X as E1 E2. subst hrp data.
       apply orb_false_iff in C1. destruct C1 as [C1a C1b]. apply orb_false_iff in C2. destruct C2 as [C2a C2b].
@@ -128,19 +144,19 @@ Section BaseSpec.
       assert (Hin : Forall (fun x => In x charset) b).
       { eapply Forall_impl; [|exact C2b]. intros x Hx. apply memb_In. assumption. }
       destruct (map_sym_find b Hin) as [S1 S2].
-      split; [reflexivity|]. split.
+      split; [exact CA|]. split; [reflexivity|]. split.
       + split; [destruct a; [simpl in C1a; lia|discriminate]|].
         eapply Forall_impl; [|exact C1b]. intros x Hx. cbv beta in Hx. apply orb_false_iff in Hx. destruct Hx as [H1 H2].
         apply N.ltb_ge in H1, H2. split; assumption.
       + exists (map (charset_find charset) b). rewrite S2, map_length. repeat split; auto. apply strip_checksum_eq.
-    - intros (M & [Hne Hr] & ints & El & Hs & Hlen & V & ->). rewrite M, El.
+    - intros (CA & M & [Hne Hr] & ints & El & Hs & Hlen & V & ->). apply ascii_guard_false in CA. rewrite CA, M, El.
       rewrite rfind_app by (apply sep_not_in_syms; assumption). rewrite firstn_app_exact, skipn_app_exact.
       assert (C1 : (length hrp =? 0)%nat || existsb (fun x => (x <? hmin) || (hmax <? x)) hrp = false).
       { apply orb_false_iff. split; [apply Nat.eqb_neq; destruct hrp; [congruence|simpl; lia]|].
         apply existsb_false_forall. eapply Forall_impl; [|exact Hr]. intros x [H1 H2]. cbv beta.
         apply orb_false_iff. split; apply N.ltb_ge; assumption. }
       rewrite C1.
-      assert (C2 : (length (map sym ints) <? cklen + 1)%nat || negb (forallb (fun x => memb x charset) (map sym ints)) = false).
+      assert (C2 : (length (map sym ints) <? cklen + min_data)%nat || negb (forallb (fun x => memb x charset) (map sym ints)) = false).
       { apply orb_false_iff. split; [apply Nat.ltb_ge; rewrite map_length; assumption|].
         apply negb_false_iff, forallb_forall. intros x Hx. apply memb_In. apply in_map_iff in Hx.
         destruct Hx as (d & <- & Hd). apply sym_in. unfold syms_ok in Hs. rewrite Forall_forall in Hs. auto. }
@@ -154,10 +170,11 @@ Section BaseSpec.
     decode_base s = Err e -> e = ValueError \/ e = LibError Bech32ChecksumError.
   Proof.
     intros Hv. unfold Bech32.decode_base.
+    destruct (ascii_only && _); [intros X; inversion X; auto|].
     destruct (is_string_mixed s); [intros X; inversion X; auto|].
     destruct (rfind sep (py_lower s)) as [pos|]; [|intros X; inversion X; auto].
     destruct (_ || _); [intros X; inversion X; auto|].
-    destruct ((length (skipn (S pos) (py_lower s)) <? cklen + 1)%nat || _) eqn:C2; [intros X; inversion X; auto|].
+    destruct ((length (skipn (S pos) (py_lower s)) <? cklen + min_data)%nat || _) eqn:C2; [intros X; inversion X; auto|].
     apply orb_false_iff in C2. destruct C2 as [C2 _]. apply Nat.ltb_ge in C2.
     destruct (Hv (firstn pos (py_lower s)) (map (charset_find charset) (skipn (S pos) (py_lower s)))) as [b Eb].
     { intro Z. apply (f_equal (@length N)) in Z. rewrite map_length in Z. cbn [length] in Z. lia. }
@@ -168,7 +185,7 @@ Section BaseSpec.
   Lemma decode_base_chars s hrp data : decode_base s = Ok (hrp, data) ->
     Forall (fun x => (hmin <= x <= hmax) \/ x = sep \/ In x charset) (py_lower s).
   Proof.
-    intros H. apply decode_base_ok_iff in H. destruct H as (_ & [_ Hr] & ints & -> & Hs & _).
+    intros H. apply decode_base_ok_iff in H. destruct H as (_ & _ & [_ Hr] & ints & -> & Hs & _).
     apply Forall_app. split; [eapply Forall_impl; [|exact Hr]; auto|].
     constructor; [auto|]. apply Forall_forall. intros x Hx. apply in_map_iff in Hx. destruct Hx as (d & <- & Hd).
     right. right. apply sym_in. unfold syms_ok in Hs. rewrite Forall_forall in Hs. auto.
@@ -179,6 +196,8 @@ End BaseSpec.
 Notation bsym := (sym bech32_charset).
 
 Definition hrp_ok33 : list N -> Prop := hrp_ok bech32_hrp_min_cp bech32_hrp_max_cp.
+(* the isascii() guard of _DecodeBech32, where the source has one (Gen: bech32_dec_ascii_only) *)
+Definition dec_ascii_rule : list N -> Prop := ascii_rule bech32_dec_ascii_only.
 (* what the encoders' HRP must look like for the output to be a well-formed string: non-empty, printable
    ASCII, no upper-case letter *)
 Definition hrp_enc_ok (hrp : list N) : Prop :=
@@ -214,6 +233,16 @@ Proof.
   constructor; [apply sep_stable; assumption|apply bsym_stable; assumption].
 Qed.
 
+Lemma encoded_ascii hrp sep l : hrp_enc_ok hrp -> In sep [bech32_sep; segwit_sep; cash_sep] -> small32 l ->
+  dec_ascii_rule (hrp ++ sep :: map bsym l).
+Proof.
+  intros [_ Hh] Hs Hl _. apply Forall_app. split.
+  - eapply Forall_impl; [|exact Hh]. intros x [[_ H2] _]. destruct hrp_range as [_ E]. rewrite E in H2. lia.
+  - constructor; [apply sep_stable; assumption|]. apply Forall_forall. intros x Hx. apply in_map_iff in Hx.
+    destruct Hx as (d & <- & Hd). pose proof charset_ascii as A. rewrite Forall_forall in A. apply A. apply sym_in.
+    unfold small32 in Hl. rewrite Forall_forall in Hl. apply Hl. assumption.
+Qed.
+
 Lemma drop_last_cons k (x : N) l : (k <= length l)%nat -> drop_last k (x :: l) = x :: drop_last k l.
 Proof. intros H. unfold drop_last. simpl length. replace (S (length l) - k)%nat with (S (length l - k)) by lia. reflexivity. Qed.
 
@@ -240,15 +269,15 @@ Definition bech32_verify_fn (hrp data : list N) : res bool := Ok (b32_verify_che
 
 Lemma bech32_raw_ok_iff s hrp data :
   bech32_decode_raw s = Ok (hrp, data) <->
-  is_string_mixed s = false /\ hrp_ok33 hrp /\
+  dec_ascii_rule s /\ is_string_mixed s = false /\ hrp_ok33 hrp /\
   exists syms, py_lower s = hrp ++ bech32_sep :: map bsym syms /\ small32 syms /\
-    (bech32_cklen + 1 <= length syms)%nat /\ b32_verify_checksum bech32_const hrp syms = true /\
+    (bech32_cklen + bech32_decoder_min_data <= length syms)%nat /\ b32_verify_checksum bech32_const hrp syms = true /\
     data = drop_last bech32_cklen syms.
 Proof.
   unfold bech32_decode_raw, bech32_decode_base.
-  rewrite (decode_base_ok_iff bech32_charset _ _ bech32_sep bech32_cklen _ charset_nodup
+  rewrite (decode_base_ok_iff bech32_charset _ _ bech32_sep bech32_cklen _ _ _ charset_nodup
              (proj1 (proj2 (sep_stable bech32_sep (or_introl eq_refl)))) b32_cklen_pos).
-  split; intros (M & Hh & syms & El & Hs & Hl & V & Hd); (split; [exact M|]); (split; [exact Hh|]);
+  split; intros (CA & M & Hh & syms & El & Hs & Hl & V & Hd); (split; [exact CA|]); (split; [exact M|]); (split; [exact Hh|]);
     exists syms; repeat split; auto.
   - inversion V. reflexivity.
   - rewrite V. reflexivity.
@@ -256,19 +285,19 @@ Qed.
 
 Theorem bech32_decode_ok_iff hrp s payload :
   bech32_decode hrp s = Ok payload <->
-  is_string_mixed s = false /\ hrp_ok33 hrp /\
+  dec_ascii_rule s /\ is_string_mixed s = false /\ hrp_ok33 hrp /\
   exists syms, py_lower s = hrp ++ bech32_sep :: map bsym syms /\ small32 syms /\
-    (bech32_cklen + 1 <= length syms)%nat /\ b32_verify_checksum bech32_const hrp syms = true /\
+    (bech32_cklen + bech32_decoder_min_data <= length syms)%nat /\ b32_verify_checksum bech32_const hrp syms = true /\
     from_base32 5 8 (drop_last bech32_cklen syms) = Ok payload.
 Proof.
   unfold bech32_decode. split.
   - destruct (bech32_decode_raw s) as [[h d]|] eqn:R; cbn [bind Ok fst snd]; [|discriminate].
     destruct (list_eqb hrp h) eqn:E; cbn [negb]; [|discriminate]. apply list_eqb_spec in E. subst h.
-    intros F. apply bech32_raw_ok_iff in R. destruct R as (M & Hh & syms & El & Hs & Hl & V & ->).
-    split; [exact M|]. split; [exact Hh|]. exists syms. auto.
-  - intros (M & Hh & syms & El & Hs & Hl & V & F).
+    intros F. apply bech32_raw_ok_iff in R. destruct R as (CA & M & Hh & syms & El & Hs & Hl & V & ->).
+    split; [exact CA|]. split; [exact M|]. split; [exact Hh|]. exists syms. auto.
+  - intros (CA & M & Hh & syms & El & Hs & Hl & V & F).
     assert (R : bech32_decode_raw s = Ok (hrp, drop_last bech32_cklen syms)).
-    { apply bech32_raw_ok_iff. split; [exact M|]. split; [exact Hh|]. exists syms. auto. }
+    { apply bech32_raw_ok_iff. split; [exact CA|]. split; [exact M|]. split; [exact Hh|]. exists syms. auto. }
     rewrite R. cbn [bind Ok fst snd]. rewrite list_eqb_refl. cbn [negb]. exact F.
 Qed.
 
@@ -286,7 +315,7 @@ Qed.
 Theorem bech32_dec_then_enc hrp s payload :
   bech32_decode hrp s = Ok payload -> bech32_encode hrp payload = Ok (py_lower s).
 Proof.
-  intros H. apply bech32_decode_ok_iff in H. destruct H as (M & Hh & syms & El & Hs & Hl & V & F).
+  intros H. apply bech32_decode_ok_iff in H. destruct H as (_ & M & Hh & syms & El & Hs & Hl & V & F).
   destruct (split_last bech32_cklen syms ltac:(lia)) as [Sp Lc].
   set (d := drop_last bech32_cklen syms) in *. set (cs := take_last bech32_cklen syms) in *.
   rewrite Sp in Hs, V. apply small32_app in Hs. destruct Hs as [Hd Hc].
@@ -299,8 +328,9 @@ Proof.
   cbn [bind Ok]. rewrite El, Sp. reflexivity.
 Qed.
 
-(* round trip; the payload must be non-empty (F11: the decoder wants cklen + 1 symbols) *)
-Theorem bech32_dec_enc hrp data : hrp_enc_ok hrp -> bytes_ok data -> data <> [] ->
+(* round trip; as long as the decoder wants cklen + 1 symbols (F11) the payload must be non-empty *)
+Theorem bech32_dec_enc hrp data : hrp_enc_ok hrp -> bytes_ok data ->
+  data <> [] \/ bech32_decoder_min_data = 0%nat ->
   exists s, bech32_encode hrp data = Ok s /\ bech32_decode hrp s = Ok data.
 Proof.
   intros Hh Hd Hne. destruct (to_base32_total data Hd) as (syms & T & Hs).
@@ -310,11 +340,14 @@ Proof.
   - unfold bech32_encode. rewrite b32_to_base32_eq, T. cbn [bind Ok]. unfold bech32_encode_base, encode_base. cbn [bind Ok].
     fold cs. rewrite (mapM_char_at bech32_charset) by assumption. reflexivity.
   - pose proof (encoded_stable hrp bech32_sep (syms ++ cs) Hh (or_introl eq_refl) Hall) as St.
-    apply bech32_decode_ok_iff. split; [apply not_mixed_stable; assumption|].
+    apply bech32_decode_ok_iff. split; [apply encoded_ascii; auto; left; reflexivity|].
+    split; [apply not_mixed_stable; assumption|].
     split; [apply hrp_enc_ok_33; assumption|]. exists (syms ++ cs).
     assert (Lc : length cs = bech32_cklen) by apply b32_compute_length.
     split; [apply py_lower_stable; assumption|]. split; [assumption|]. split.
-    + rewrite app_length, Lc. pose proof (to_base32_nonempty _ _ T Hne). destruct syms; [congruence|cbn [length]; lia].
+    + rewrite app_length, Lc. destruct Hne as [Hne|Hz]; [|rewrite Hz; lia].
+      pose proof (to_base32_nonempty _ _ T Hne). pose proof (proj2 (proj2 dec_min_data)).
+      destruct syms; [congruence|cbn [length]; lia].
     + split; [apply b32_verify_compute; [apply bech32_const_small|apply hrp_ok33_chars, hrp_enc_ok_33; assumption|assumption]|].
       rewrite <- Lc, drop_last_app. apply from_to_base32; assumption.
 Qed.
@@ -341,19 +374,20 @@ Proof. destruct d; [congruence|]. intros _. eexists. reflexivity. Qed.
 
 Lemma segwit_raw_ok_iff s hrp data :
   segwit_decode_raw s = Ok (hrp, data) <->
-  is_string_mixed s = false /\ hrp_ok33 hrp /\
+  dec_ascii_rule s /\ is_string_mixed s = false /\ hrp_ok33 hrp /\
   exists v rest, py_lower s = hrp ++ segwit_sep :: map bsym (v :: rest) /\ small32 (v :: rest) /\
     (segwit_cklen <= length rest)%nat /\ b32_verify_checksum (segwit_const v) hrp (v :: rest) = true /\
     data = v :: drop_last segwit_cklen rest.
 Proof.
   unfold segwit_decode_raw, bech32_decode_base.
-  rewrite (decode_base_ok_iff bech32_charset _ _ segwit_sep segwit_cklen _ charset_nodup
+  rewrite (decode_base_ok_iff bech32_charset _ _ segwit_sep segwit_cklen _ _ _ charset_nodup
              (proj1 (proj2 (sep_stable segwit_sep (or_intror (or_introl eq_refl))))) b32_cklen_pos).
+  rewrite (proj1 dec_min_data).
   split.
-  - intros (M & Hh & ints & El & Hs & Hl & V & Hd). apply segwit_verify_ok_iff in V.
-    destruct V as (v & rest & -> & V). split; [exact M|]. split; [exact Hh|]. exists v, rest.
+  - intros (CA & M & Hh & ints & El & Hs & Hl & V & Hd). apply segwit_verify_ok_iff in V.
+    destruct V as (v & rest & -> & V). split; [exact CA|]. split; [exact M|]. split; [exact Hh|]. exists v, rest.
     cbn [length] in Hl. repeat split; auto; [lia|]. rewrite Hd. apply drop_last_cons. lia.
-  - intros (M & Hh & v & rest & El & Hs & Hl & V & Hd). split; [exact M|]. split; [exact Hh|].
+  - intros (CA & M & Hh & v & rest & El & Hs & Hl & V & Hd). split; [exact CA|]. split; [exact M|]. split; [exact Hh|].
     exists (v :: rest). repeat split; auto.
     + cbn [length]. lia.
     + apply segwit_verify_ok_iff. exists v, rest. auto.
@@ -384,7 +418,7 @@ Qed.
 
 Theorem segwit_decode_ok_iff hrp s v prog :
   segwit_decode hrp s = Ok (v, prog) <->
-  is_string_mixed s = false /\ hrp_ok33 hrp /\
+  dec_ascii_rule s /\ is_string_mixed s = false /\ hrp_ok33 hrp /\
   exists rest, py_lower s = hrp ++ segwit_sep :: map bsym (v :: rest) /\ small32 (v :: rest) /\
     (segwit_cklen <= length rest)%nat /\ b32_verify_checksum (segwit_const v) hrp (v :: rest) = true /\
     from_base32 5 8 (drop_last segwit_cklen rest) = Ok prog /\ segwit_prog_ok v prog.
@@ -392,17 +426,17 @@ Proof.
   unfold segwit_decode. split.
   - destruct (segwit_decode_raw s) as [[h d]|] eqn:R; cbn [bind Ok fst snd]; [|discriminate].
     destruct (list_eqb hrp h) eqn:E; cbn [negb]; [|discriminate]. apply list_eqb_spec in E. subst h.
-    apply segwit_raw_ok_iff in R. destruct R as (M & Hh & v' & rest & El & Hs & Hl & V & ->).
+    apply segwit_raw_ok_iff in R. destruct R as (CA & M & Hh & v' & rest & El & Hs & Hl & V & ->).
     cbn [tl hd_error]. rewrite b32_from_base32_eq.
     destruct (from_base32 5 8 (drop_last segwit_cklen rest)) as [conv|] eqn:F; cbn [bind Ok of_option]; [|discriminate].
     destruct (_ || _) eqn:C1; [discriminate|]. destruct (segwit_ver_max <? v') eqn:C2; [discriminate|].
     destruct (_ && _) eqn:C3; [discriminate|]. intros X. inversion X; subst.
-    split; [exact M|]. split; [exact Hh|]. exists rest.
+    split; [exact CA|]. split; [exact M|]. split; [exact Hh|]. exists rest.
     split; [exact El|]. split; [exact Hs|]. split; [exact Hl|]. split; [exact V|]. split; [exact F|].
     apply segwit_rules_iff. auto.
-  - intros (M & Hh & rest & El & Hs & Hl & V & F & Hp).
+  - intros (CA & M & Hh & rest & El & Hs & Hl & V & F & Hp).
     assert (R : segwit_decode_raw s = Ok (hrp, v :: drop_last segwit_cklen rest)).
-    { apply segwit_raw_ok_iff. split; [exact M|]. split; [exact Hh|]. exists v, rest. auto. }
+    { apply segwit_raw_ok_iff. split; [exact CA|]. split; [exact M|]. split; [exact Hh|]. exists v, rest. auto. }
     rewrite R. cbn [bind Ok fst snd]. rewrite list_eqb_refl. cbn [negb tl hd_error].
     rewrite b32_from_base32_eq, F. cbn [bind Ok of_option].
     apply segwit_rules_iff in Hp. destruct Hp as (C1 & C2 & C3). rewrite C1, C2, C3. reflexivity.
@@ -413,7 +447,7 @@ Theorem segwit_decode_err hrp s e :
 Proof.
   unfold segwit_decode. destruct (segwit_decode_raw s) as [[h d]|e'] eqn:R; cbn [bind Ok fst snd].
   - destruct (list_eqb hrp h); cbn [negb]; [|intros X; inversion X; auto].
-    apply segwit_raw_ok_iff in R. destruct R as (_ & _ & v' & rest & _ & _ & _ & _ & ->).
+    apply segwit_raw_ok_iff in R. destruct R as (_ & _ & _ & v' & rest & _ & _ & _ & _ & ->).
     cbn [tl hd_error]. rewrite b32_from_base32_eq.
     destruct (from_base32 5 8 _) as [conv|e''] eqn:F; cbn [bind Ok of_option].
     + destruct (_ || _); [intros X; inversion X; auto|]. destruct (segwit_ver_max <? v'); [intros X; inversion X; auto|].
@@ -432,7 +466,7 @@ Proof. reflexivity. Qed.
 Theorem segwit_dec_then_enc hrp s v prog :
   segwit_decode hrp s = Ok (v, prog) -> segwit_encode hrp v prog = Ok (py_lower s).
 Proof.
-  intros H. apply segwit_decode_ok_iff in H. destruct H as (M & Hh & rest & El & Hs & Hl & V & F & Hp).
+  intros H. apply segwit_decode_ok_iff in H. destruct H as (_ & M & Hh & rest & El & Hs & Hl & V & F & Hp).
   destruct (split_last segwit_cklen rest Hl) as [Sp Lc].
   set (d := drop_last segwit_cklen rest) in *. set (cs := take_last segwit_cklen rest) in *.
   assert (Hs' : small32 ((v :: d) ++ cs)) by (cbn [app]; rewrite <- Sp; exact Hs).
@@ -460,7 +494,8 @@ Proof.
     rewrite (mapM_char_at bech32_charset) by assumption. reflexivity.
   - pose proof (encoded_stable hrp segwit_sep ((v :: syms) ++ cs) Hh (or_intror (or_introl eq_refl)) Hall) as St.
     assert (Lc : length cs = segwit_cklen) by apply b32_compute_length.
-    apply segwit_decode_ok_iff. split; [apply not_mixed_stable; assumption|].
+    apply segwit_decode_ok_iff. split; [apply encoded_ascii; auto; right; left; reflexivity|].
+    split; [apply not_mixed_stable; assumption|].
     split; [apply hrp_enc_ok_33; assumption|]. exists (syms ++ cs). cbn [app] in *.
     split; [apply py_lower_stable; assumption|]. split; [assumption|]. split; [rewrite app_length; lia|].
     split; [apply (b32_verify_compute (segwit_const v) (segwit_const_small v) hrp (v :: syms));
@@ -479,15 +514,16 @@ Qed.
 
 Lemma cash_raw_ok_iff s hrp data :
   cash_decode_raw s = Ok (hrp, data) <->
-  is_string_mixed s = false /\ hrp_ok33 hrp /\
+  dec_ascii_rule s /\ is_string_mixed s = false /\ hrp_ok33 hrp /\
   exists syms, py_lower s = hrp ++ cash_sep :: map bsym syms /\ small32 syms /\
     (cash_cklen + 1 <= length syms)%nat /\ cash_verify_checksum hrp syms = true /\
     data = drop_last cash_cklen syms.
 Proof.
   unfold cash_decode_raw, bech32_decode_base.
-  rewrite (decode_base_ok_iff bech32_charset _ _ cash_sep cash_cklen _ charset_nodup
+  rewrite (decode_base_ok_iff bech32_charset _ _ cash_sep cash_cklen _ _ _ charset_nodup
              (proj1 (proj2 (sep_stable cash_sep (or_intror (or_intror (or_introl eq_refl)))))) cash_cklen_pos).
-  split; intros (M & Hh & syms & El & Hs & Hl & V & Hd); (split; [exact M|]); (split; [exact Hh|]);
+  rewrite (proj1 (proj2 dec_min_data)).
+  split; intros (CA & M & Hh & syms & El & Hs & Hl & V & Hd); (split; [exact CA|]); (split; [exact M|]); (split; [exact Hh|]);
     exists syms; repeat split; auto.
   - inversion V. reflexivity.
   - rewrite V. reflexivity.
@@ -495,7 +531,7 @@ Qed.
 
 Theorem cash_decode_ok_iff hrp s nv data :
   cash_decode hrp s = Ok (nv, data) <->
-  is_string_mixed s = false /\ hrp_ok33 hrp /\
+  dec_ascii_rule s /\ is_string_mixed s = false /\ hrp_ok33 hrp /\
   exists syms b, py_lower s = hrp ++ cash_sep :: map bsym syms /\ small32 syms /\
     (cash_cklen + 1 <= length syms)%nat /\ cash_verify_checksum hrp syms = true /\
     from_base32 5 8 (drop_last cash_cklen syms) = Ok (b :: data) /\ nv = [b].
@@ -503,15 +539,15 @@ Proof.
   unfold cash_decode. split.
   - destruct (cash_decode_raw s) as [[h d]|] eqn:R; cbn [bind Ok fst snd]; [|discriminate].
     destruct (list_eqb hrp h) eqn:E; cbn [negb]; [|discriminate]. apply list_eqb_spec in E. subst h.
-    apply cash_raw_ok_iff in R. destruct R as (M & Hh & syms & El & Hs & Hl & V & ->).
+    apply cash_raw_ok_iff in R. destruct R as (CA & M & Hh & syms & El & Hs & Hl & V & ->).
     rewrite b32_from_base32_eq.
     destruct (from_base32 5 8 (drop_last cash_cklen syms)) as [conv|] eqn:F; cbn [bind Ok]; [|discriminate].
     destruct conv as [|b rest]; [discriminate|]. intros X. inversion X; subst.
-    split; [exact M|]. split; [exact Hh|]. exists syms, b. repeat split; auto.
+    split; [exact CA|]. split; [exact M|]. split; [exact Hh|]. exists syms, b. repeat split; auto.
     apply int_to_be_auto_byte. apply from_base32_spec in F. destruct F as (_ & Hb & _). inversion Hb; assumption.
-  - intros (M & Hh & syms & b & El & Hs & Hl & V & F & ->).
+  - intros (CA & M & Hh & syms & b & El & Hs & Hl & V & F & ->).
     assert (R : cash_decode_raw s = Ok (hrp, drop_last cash_cklen syms)).
-    { apply cash_raw_ok_iff. split; [exact M|]. split; [exact Hh|]. exists syms. auto. }
+    { apply cash_raw_ok_iff. split; [exact CA|]. split; [exact M|]. split; [exact Hh|]. exists syms. auto. }
     rewrite R. cbn [bind Ok fst snd]. rewrite list_eqb_refl. cbn [negb]. rewrite b32_from_base32_eq, F. cbn [bind Ok].
     rewrite int_to_be_auto_byte; [reflexivity|].
     apply from_base32_spec in F. destruct F as (_ & Hb & _). inversion Hb; assumption.
@@ -522,7 +558,7 @@ Theorem cash_decode_err hrp s e :
 Proof.
   unfold cash_decode. destruct (cash_decode_raw s) as [[h d]|e'] eqn:R; cbn [bind Ok fst snd].
   - destruct (list_eqb hrp h); cbn [negb]; [|intros X; inversion X; auto].
-    apply cash_raw_ok_iff in R. destruct R as (_ & _ & syms & _ & _ & Hl & _ & ->).
+    apply cash_raw_ok_iff in R. destruct R as (_ & _ & _ & syms & _ & _ & Hl & _ & ->).
     rewrite b32_from_base32_eq.
     destruct (from_base32 5 8 _) as [conv|e''] eqn:F; cbn [bind Ok].
     + destruct conv as [|b rest]; [|discriminate]. exfalso.
@@ -536,7 +572,7 @@ Qed.
 Theorem cash_dec_then_enc hrp s nv data :
   cash_decode hrp s = Ok (nv, data) -> cash_encode hrp nv data = Ok (py_lower s).
 Proof.
-  intros H. apply cash_decode_ok_iff in H. destruct H as (M & Hh & syms & b & El & Hs & Hl & V & F & ->).
+  intros H. apply cash_decode_ok_iff in H. destruct H as (_ & M & Hh & syms & b & El & Hs & Hl & V & F & ->).
   destruct (split_last cash_cklen syms ltac:(lia)) as [Sp Lc].
   set (d := drop_last cash_cklen syms) in *. set (cs := take_last cash_cklen syms) in *.
   rewrite Sp in Hs, V. apply small32_app in Hs. destruct Hs as [Hd Hc].
@@ -560,7 +596,8 @@ Proof.
     fold cs. rewrite (mapM_char_at bech32_charset) by assumption. reflexivity.
   - pose proof (encoded_stable hrp cash_sep (syms ++ cs) Hh (or_intror (or_intror (or_introl eq_refl))) Hall) as St.
     assert (Lc : length cs = cash_cklen) by apply cash_compute_length.
-    apply cash_decode_ok_iff. split; [apply not_mixed_stable; assumption|].
+    apply cash_decode_ok_iff. split; [apply encoded_ascii; auto; right; right; left; reflexivity|].
+    split; [apply not_mixed_stable; assumption|].
     split; [apply hrp_enc_ok_33; assumption|]. exists (syms ++ cs), b.
     split; [apply py_lower_stable; assumption|]. split; [assumption|]. split.
     + rewrite app_length, Lc. pose proof (to_base32_nonempty _ _ T ltac:(discriminate)). destruct syms; [congruence|cbn [length]; lia].
@@ -571,12 +608,12 @@ Qed.
 (* ------------------------------------------------------------------ shared consequences *)
 (* every character of an accepted string lower-cases into printable ASCII; hence (sweep over the whole
    code space, Lemmas/Bech32Str.v) it is ASCII itself or U+212A KELVIN SIGN *)
-Lemma accepted_chars_ascii sep cklen verify s hrp data : In sep [bech32_sep; segwit_sep; cash_sep] ->
-  (1 <= cklen)%nat -> bech32_decode_base sep cklen verify s = Ok (hrp, data) ->
+Lemma accepted_chars_ascii sep cklen md verify s hrp data : In sep [bech32_sep; segwit_sep; cash_sep] ->
+  (1 <= cklen)%nat -> bech32_decode_base sep cklen md verify s = Ok (hrp, data) ->
   Forall (fun c => c < 128 \/ c = kelvin_sign) s.
 Proof.
   intros Hsep Hck H. apply py_lower_ascii.
-  apply (decode_base_chars bech32_charset _ _ sep cklen verify charset_nodup (proj1 (proj2 (sep_stable sep Hsep))) Hck) in H.
+  apply (decode_base_chars bech32_charset _ _ sep cklen _ md verify charset_nodup (proj1 (proj2 (sep_stable sep Hsep))) Hck) in H.
   eapply Forall_impl; [|exact H]. intros x [Hx|[Hx|Hx]].
   - destruct hrp_range as [_ E]. rewrite E in Hx. lia.
   - subst x. apply sep_stable. assumption.
@@ -619,4 +656,15 @@ Proof.
   unfold cash_decode. destruct (cash_decode_raw s) as [[h d]|]; cbn [bind Ok fst snd]; [|discriminate].
   destruct (list_eqb h1 h) eqn:E1; [|discriminate]. destruct (list_eqb h2 h) eqn:E2; [|discriminate].
   apply list_eqb_spec in E1, E2. congruence.
+Qed.
+
+(* where the source has the isascii() guard (bech32_dec_ascii_only = true), accepted strings are pure ASCII *)
+Theorem accepted_ascii_guard hrp s : bech32_dec_ascii_only = true ->
+  ((exists p, bech32_decode hrp s = Ok p) \/ (exists p, segwit_decode hrp s = Ok p) \/
+   (exists p, cash_decode hrp s = Ok p)) -> Forall (fun c => c < 128) s.
+Proof.
+  intros G [[p H]|[[[v p] H]|[[nv d] H]]].
+  - apply bech32_decode_ok_iff in H. destruct H as (CA & _). exact (CA G).
+  - apply segwit_decode_ok_iff in H. destruct H as (CA & _). exact (CA G).
+  - apply cash_decode_ok_iff in H. destruct H as (CA & _). exact (CA G).
 Qed.
